@@ -1,8 +1,8 @@
 #!/bin/bash
 # dev tool (not a registered check): confirm a seeded change produced in scratch worktree /tmp/wt-$1 and store it under /verif/seeded/$1
-# usage: seed_verify.sh C13
+# usage: seed_verify.sh C13 [worktree]
 set -u
-id=$1; wt=/tmp/wt-$id; out=/verif/seeded/$id
+id=$1; wt=${2:-/tmp/wt-$id}; out=/verif/seeded/$id
 export OMP_NUM_THREADS=1 MKL_NUM_THREADS=1 PYTHONPATH=$wt
 cd $wt || exit 2
 git diff -- tntorch > /tmp/seed-$id.diff
@@ -14,6 +14,12 @@ timeout 900 /venv/bin/python -W ignore $demo > /tmp/seed-$id.clean.out 2>&1; rc_
 git apply /tmp/seed-$id.diff || { echo "re-apply failed"; exit 2; }
 timeout 900 /venv/bin/python -W ignore $demo > /tmp/seed-$id.mut.out 2>&1; rc_mut=$?
 timeout 1800 /venv/bin/python -m pytest -q -p no:cacheprovider --timeout=900 tests > /tmp/seed-$id.tests.out 2>&1; rc_tests=$?
+# tests/test_cross.py::test_tensors is randomised (fails now and then on the unchanged tree too): if it is the ONLY failure, re-run it
+if [ $rc_tests -ne 0 ] && [ "$(grep -c '^FAILED' /tmp/seed-$id.tests.out)" = "1" ] && grep -q '^FAILED tests/test_cross.py::test_tensors' /tmp/seed-$id.tests.out; then
+  for k in 1 2 3; do
+    timeout 900 /venv/bin/python -m pytest -q -p no:cacheprovider --timeout=900 tests/test_cross.py::test_tensors > /tmp/seed-$id.tests2.out 2>&1 && { rc_tests=0; echo "(test_cross::test_tensors flaked once, passed on re-run)"; break; }
+  done
+fi
 echo "$id demo(clean)=$rc_clean demo(mutated)=$rc_mut tests(mutated)=$rc_tests: $(tail -1 /tmp/seed-$id.tests.out)"
 if [ $rc_clean -eq 0 ] && [ $rc_mut -ne 0 ] && [ $rc_tests -eq 0 ]; then
   mkdir -p $out
